@@ -221,8 +221,13 @@ def tree_eq(a, b):
     """Structural equality of two to_dict() trees; numbers by IEEE value."""
     if isinstance(a, dict) and isinstance(b, dict):
         if a.keys() != b.keys():
-            return False
-        return all(tree_eq(a[k], b[k]) for k in a)
+            # A boolean/None annotation that only one side carries (a flag the parser records and this
+            # generator does not model, e.g. FunctionExpression.is_method) is not a structural difference.
+            for k in a.keys() ^ b.keys():
+                v = a.get(k, b.get(k))
+                if not (v is None or isinstance(v, bool)):
+                    return False
+        return all(tree_eq(a[k], b[k]) for k in a.keys() & b.keys())
     if isinstance(a, list) and isinstance(b, list):
         return len(a) == len(b) and all(tree_eq(x, y) for x, y in zip(a, b))
     if isinstance(a, bool) or isinstance(b, bool):
@@ -239,12 +244,14 @@ def first_diff(a, b, path=""):
             return "%s: %s != %s" % (path or ".", a.get("type"), b.get("type"))
         for k in a:
             if k not in b:
+                if a[k] is None or isinstance(a[k], bool):
+                    continue
                 return "%s.%s missing" % (path, k)
             d = first_diff(a[k], b[k], path + "." + k)
             if d:
                 return d
         for k in b:
-            if k not in a:
+            if k not in a and not (b[k] is None or isinstance(b[k], bool)):
                 return "%s.%s extra" % (path, k)
         return None
     if isinstance(a, list) and isinstance(b, list):
@@ -687,7 +694,8 @@ class Printer:
             self._params(v["params"])
             self.block(v["body"])
             return
-        if p.get("_method") and v["type"] == "FunctionExpression" and v["id"] is None:
+        # method shorthand: the generator's hint, or what the parser recorded (is_method) for a parsed tree
+        if (p.get("_method") or v.get("is_method")) and v["type"] == "FunctionExpression" and v["id"] is None:
             self._key(p)
             self._params(v["params"])
             self.block(v["body"])
